@@ -23,6 +23,11 @@ static Run run(const std::function<double(double)>& f, double a, double b, doubl
 {
 	Run r;
 	StreamCapture cap;
+	// call history across two public functions: now and then Find_Epsilon is asked about ANOTHER integrand on the very same limits right before the call
+	// under observation (what it learnt there must not leak into this integration)
+	static uint64_t history_counter = 0;
+	if(++history_counter % 7 == 0)
+		(void) Find_Epsilon([](double x) { return 3.0 + std::cos(x); }, std::min(a, b), std::max(a, b), 1e-6);
 	uint64_t t0 = ticks("Simpson.panel");
 	r.value		= Integrate(traced(f, &r.tr), a, b, eps, depth);
 	r.panels	= ticks("Simpson.panel") - t0;
@@ -72,6 +77,12 @@ static void poly_case(Rng& rng, uint64_t)
 	if(rng.coin(0.3))
 		lo = rng.uni(-1, 1) * W;   // around the origin
 	lo		  = std::max(-1e3, std::min(lo, 1e3 - W));
+	if(rng.coin(0.04))
+	{
+		// an interval that is narrow compared with its distance from the origin (width / |a| down to 1e-12): still thousands of doubles wide
+		W  = rng.loguni(1e-6, 1e-4);
+		lo = rng.sign() * rng.loguni(1e4, 1e6);
+	}
 	double hi = lo + W;
 	double a = lo, b = hi;
 	if(rng.coin())
@@ -250,6 +261,17 @@ static void rough_case(Rng& rng, uint64_t)
 		case 5: name = "narrow spike", f = [=](double x) { double u = (x - c) / (1e-3 * s); return 1.0 / (1.0 + u * u); }; break;
 		case 6: name = "exp(-x^2/s^2)*x + sin(3x/s)", f = [=](double x) { return std::exp(-x * x / (s * s)) * x + std::sin(3 * x / s); }; break;
 		default: name = "sawtooth", f = [=](double x) { return std::fmod(std::fabs(x - c), s / 7) - s / 14; }; break;
+	}
+	// integrands that are infinite or NaN exactly at a sample point of the first levels (an end point, the midpoint, a quarter point): the location and
+	// count bounds hold for arbitrary integrands, also for these
+	if(rng.coin(0.08))
+	{
+		double pts[5] = {lo, hi, 0.5 * (lo + hi), lo + 0.25 * (hi - lo), lo + 0.75 * (hi - lo)};
+		double cs	  = pts[rng.below(5)];
+		if(rng.coin())
+			name = "1/sqrt|x-c|, c a dyadic sample point", f = [=](double x) { return 1.0 / std::sqrt(std::fabs(x - cs)); };
+		else
+			name = "NaN at a dyadic sample point", f = [=](double x) { return x == cs ? std::nan("") : std::cos(x); };
 	}
 	int depth  = rng.irange(0, 12);
 	double eps = rng.loguni(1e-18, 1e2) * rng.sign();
